@@ -114,6 +114,26 @@ SoupInit == x = <<>>
 SoupNext == Len(x) < MaxSoup /\ \E t \in SoupAlphabet : x' = Append(x, t)
 SoupSpec == SoupInit /\ [][SoupNext]_x
 
+(* ---- tokeniser: x = <<t1, t2>> over the vocabulary ---- *)
+TokInit == x = <<>>
+TokNext == x = <<>> /\ \E a \in Vocabulary, b \in Vocabulary : x' = <<a, b>>
+TokSpec == TokInit /\ [][TokNext]_x
+Blanks == {<<" ">>, <<" ", " ">>, <<"\n", " ">>, <<" ", "\t">>}
+\* M (C18, spacing and letter case): two lexemes separated by any blanks -- or by
+\* none unless NeedSpace says they would merge -- in lower or upper case, come
+\* back from the tokeniser as themselves; and a single lexeme is one token
+TokenizerRespectsSpacingAndCase ==
+  Len(x) = 2 =>
+    LET a == CharsOf[x[1]] b == CharsOf[x[2]] IN
+    /\ Tokenize(a) = <<a>>
+    /\ \A sp \in Blanks \cup (IF NeedSpace(x[1], x[2]) THEN {} ELSE {<<>>}) :
+         /\ Tokenize(a \o sp \o b) = <<a, b>>
+         /\ Tokenize(ToUpper(a) \o sp \o ToUpper(b)) = <<a, b>>
+         /\ Tokenize(<<" ">> \o a \o sp \o b \o <<"\n">>) = <<a, b>>
+\* ...and NeedSpace is not over-cautious: without the blank they do merge
+NeedSpaceIsNecessary ==
+  (Len(x) = 2 /\ NeedSpace(x[1], x[2])) => Tokenize(CharsOf[x[1]] \o CharsOf[x[2]]) # <<CharsOf[x[1]], CharsOf[x[2]]>>
+
 \* M (C05b): every evaluation of the model ends in a value or an in-band error
 Total == /\ ExprOutcome(x).kind \in {"val", "err"}
          /\ MWOutcome(x).kind \in {"val", "err"}
